@@ -37,6 +37,7 @@ func recvRef[T any](c <-chan T) *chanRef {
 	_, isTime := any(z).(time.Time)
 	return &chanRef{
 		id:    chanID(c),
+		ref:   c,
 		clock: isTime,
 		lenf:  func() int { return len(c) },
 		capf: func() int { return cap(c) },
@@ -61,7 +62,7 @@ func sendRef[T any](c chan<- T) *chanRef {
 	if c == nil {
 		return nil
 	}
-	return &chanRef{id: chanID(c), lenf: func() int { return len(c) }, capf: func() int { return cap(c) }}
+	return &chanRef{id: chanID(c), ref: c, lenf: func() int { return len(c) }, capf: func() int { return cap(c) }}
 }
 
 // Send is `c <- v`.
@@ -111,6 +112,7 @@ func Close[T any](c chan<- T) {
 	s.yield(&Op{kind: opClose, ch: sendRef(c)})
 	close(c)
 	s.closedSet[chanID(c)] = true
+	s.keep[chanID(c)] = c
 }
 
 // Case describes one arm of a select.
